@@ -4,6 +4,13 @@ from . import REPO
 from .load import Repo, AnalysisError, loc
 from . import terms as T
 
+SELF = ('arg', 0)
+
+
+def A(i):
+    return ('arg', i)
+
+
 VERIF = os.path.dirname(os.path.dirname(os.path.abspath(__file__)))
 KNOWN = os.path.join(VERIF, 'known_findings.json')
 
@@ -468,3 +475,28 @@ def unify(spec, got, binds):
         elif a != b:
             return False
     return True
+
+
+def eval_effects(effs, env, funcs=None):
+    """Evaluate a loop-free function summary (if / assert / exit) on concrete arguments.
+    Returns ('return', value) | ('raise', term) | ('assertfail', term) | ('end', None)."""
+    for e in effs:
+        k = e[0]
+        if k == 'assert':
+            if not eval_term(e[1], env, funcs):
+                return ('assertfail', e[1])
+        elif k == 'if':
+            r = eval_effects(e[2] if eval_term(e[1], env, funcs) else e[3], env, funcs)
+            if r is not None:
+                return r
+        elif k == 'exit':
+            if e[1] == 'return':
+                return ('return', eval_term(e[2], env, funcs))
+            if e[1] == 'raise':
+                return ('raise', e[2])
+            return ('end', None)
+        elif k in ('do', 'def'):
+            continue
+        else:
+            raise NoEval('effect ' + k)
+    return None
